@@ -333,6 +333,194 @@ lemma cols_clip_iff (vt : ℕ → Char) (n : ℕ) (hvt : VtWF vt n) (lb ub : ℕ
     have := fun j hj => (col_clip_iff (vt j) (hvt j hj) (x j) (lb j) (ub j)).mpr ⟨h1 j hj, h2 j hj⟩
     exact ⟨fun j hj => (this j hj).1, fun j hj => (this j hj).2⟩
 
+/-! ### `def_sol`: the bounds of the non-continuous columns are rounded inward (tolerance `ε = 1e-9`) -/
+
+lemma intEps_pos : (0 : K) < intEps := by
+  unfold intEps; exact div_pos one_pos (pow_pos (by norm_num) 9)
+
+lemma intEps_lt_one : (intEps : K) < 1 := by
+  unfold intEps; rw [div_lt_one (pow_pos (by norm_num) 9)]; norm_num
+
+/-- the lower bound holds up to the tolerance: `l - ε ≤ v` -/
+def geLbTol (v : K) : Option K → Prop
+  | none => True
+  | some l => l - intEps ≤ v
+/-- the upper bound holds up to the tolerance: `v ≤ u + ε` -/
+def leUbTol (v : K) : Option K → Prop
+  | none => True
+  | some u => v ≤ u + intEps
+
+/-- no integer lies in `[l - ε, l)` -/
+def LbFar : Option K → Prop
+  | none => True
+  | some l => ∀ z : ℤ, ¬ (l - intEps ≤ (z : K) ∧ (z : K) < l)
+/-- no integer lies in `(u, u + ε]` -/
+def UbFar : Option K → Prop
+  | none => True
+  | some u => ∀ z : ℤ, ¬ (u < (z : K) ∧ (z : K) ≤ u + intEps)
+
+/-- the bounds of the non-continuous columns are not within `ε` *outside* of an integer: rounding
+them inward with the tolerance then loses and gains no integer point -/
+def BoundsNotNearInt (vt : ℕ → Char) (n : ℕ) (lb ub : ℕ → Option K) : Prop :=
+  ∀ j < n, vt j ≠ 'C' → LbFar (lb j) ∧ UbFar (ub j)
+
+lemma geLb_of_tol_far {v : K} {l : Option K} (hi : IsInt v) (hf : LbFar l) (h : geLbTol v l) :
+    LinProg.geLb v l := by
+  cases l with
+  | none => trivial
+  | some l =>
+    obtain ⟨z, rfl⟩ := hi
+    by_contra hc
+    exact hf z ⟨h, not_le.mp hc⟩
+
+lemma leUb_of_tol_far {v : K} {u : Option K} (hi : IsInt v) (hf : UbFar u) (h : leUbTol v u) :
+    LinProg.leUb v u := by
+  cases u with
+  | none => trivial
+  | some u =>
+    obtain ⟨z, rfl⟩ := hi
+    by_contra hc
+    exact hf z ⟨not_le.mp hc, h⟩
+
+lemma geLbTol_lbBin {v : K} {l : Option K} (h : geLbTol v (lbBin l)) : geLbTol v l ∧ -intEps ≤ v := by
+  cases l with
+  | none =>
+    have h' : (0 : K) - intEps ≤ v := h
+    exact ⟨trivial, by linarith⟩
+  | some l =>
+    have h' : max l 0 - intEps ≤ v := h
+    exact ⟨show l - intEps ≤ v by linarith [le_max_left l 0], by linarith [le_max_right l 0]⟩
+
+lemma leUbTol_ubBin {v : K} {u : Option K} (h : leUbTol v (ubBin u)) : leUbTol v u ∧ v ≤ 1 + intEps := by
+  cases u with
+  | none =>
+    have h' : v ≤ (1 : K) + intEps := h
+    exact ⟨trivial, h'⟩
+  | some u =>
+    have h' : v ≤ min u 1 + intEps := h
+    exact ⟨show v ≤ u + intEps by linarith [min_le_left u 1], by linarith [min_le_right u 1]⟩
+
+/-- an integer within `ε` of `[0,1]` is `0` or `1` -/
+lemma isBin_of_int_tol {v : K} (hi : IsInt v) (h0 : -intEps ≤ v) (h1 : v ≤ 1 + intEps) : IsBin v := by
+  obtain ⟨z, rfl⟩ := hi
+  have e := intEps_lt_one (K := K)
+  have a : ((-1 : ℤ) : K) < (z : K) := by push_cast; linarith
+  have b : (z : K) < ((2 : ℤ) : K) := by push_cast; linarith
+  have a' : (-1 : ℤ) < z := by exact_mod_cast a
+  have b' : z < 2 := by exact_mod_cast b
+  have : z = 0 ∨ z = 1 := by omega
+  rcases this with h | h
+  · left; rw [h]; simp
+  · right; rw [h]; simp
+
+section Round
+variable [FloorRing K]
+
+/-- an integer `≥ l` is `≥ ceil(l - ε)`: rounding the lower bound cuts off no integer point -/
+lemma geLb_lbRound {v : K} {l : Option K} (hi : IsInt v) (h : LinProg.geLb v l) :
+    LinProg.geLb v (lbRound l) := by
+  cases l with
+  | none => trivial
+  | some l =>
+    obtain ⟨z, rfl⟩ := hi
+    have h' : l ≤ (z : K) := h
+    have : ⌈l - intEps⌉ ≤ z := Int.ceil_le.mpr (by linarith [intEps_pos (K := K)])
+    show ((⌈l - intEps⌉ : ℤ) : K) ≤ (z : K)
+    exact_mod_cast this
+
+/-- an integer `≤ u` is `≤ floor(u + ε)` -/
+lemma leUb_ubRound {v : K} {u : Option K} (hi : IsInt v) (h : LinProg.leUb v u) :
+    LinProg.leUb v (ubRound u) := by
+  cases u with
+  | none => trivial
+  | some u =>
+    obtain ⟨z, rfl⟩ := hi
+    have h' : (z : K) ≤ u := h
+    have : z ≤ ⌊u + intEps⌋ := Int.le_floor.mpr (by linarith [intEps_pos (K := K)])
+    show (z : K) ≤ ((⌊u + intEps⌋ : ℤ) : K)
+    exact_mod_cast this
+
+lemma geLbTol_of_lbRound {v : K} {l : Option K} (h : LinProg.geLb v (lbRound l)) : geLbTol v l := by
+  cases l with
+  | none => trivial
+  | some l =>
+    have h' : ((⌈l - intEps⌉ : ℤ) : K) ≤ v := h
+    exact le_trans (Int.le_ceil _) h'
+
+lemma leUbTol_of_ubRound {v : K} {u : Option K} (h : LinProg.leUb v (ubRound u)) : leUbTol v u := by
+  cases u with
+  | none => trivial
+  | some u =>
+    have h' : v ≤ ((⌊u + intEps⌋ : ℤ) : K) := h
+    exact le_trans h' (Int.floor_le _)
+
+lemma milpLb_cont (l : Option K) : milpLb 'C' l = l := by simp [milpLb]
+lemma milpUb_cont (u : Option K) : milpUb 'C' u = u := by simp [milpUb]
+lemma milpLb_of_ne {c : Char} (h : c ≠ 'C') (l : Option K) :
+    milpLb c l = lbRound (if c = 'B' then lbBin l else l) := by simp [milpLb, h]
+lemma milpUb_of_ne {c : Char} (h : c ≠ 'C') (u : Option K) :
+    milpUb c u = ubRound (if c = 'B' then ubBin u else u) := by simp [milpUb, h]
+
+/-- column by column, `def_sol`'s MILP data (binary clipping, inward rounding, integrality) accept
+every point of the program that is binary / integral where `vtype` says so -/
+lemma col_milp_sound (c : Char) (hc : c = 'C' ∨ c = 'B' ∨ c = 'I') (v : K) (l u : Option K)
+    (hb : LinProg.geLb v l ∧ LinProg.leUb v u) (hv : (c = 'B' → IsBin v) ∧ (c = 'I' → IsInt v)) :
+    (LinProg.geLb v (milpLb c l) ∧ LinProg.leUb v (milpUb c u)) ∧ ((c != 'C') = true → IsInt v) := by
+  obtain ⟨⟨a, b⟩, i⟩ := (col_clip_iff c hc v l u).mpr ⟨hb, hv⟩
+  by_cases h : c = 'C'
+  · subst h
+    rw [milpLb_cont, milpUb_cont]
+    exact ⟨hb, fun h => absurd h (by decide)⟩
+  · have hi : IsInt v := i (by simpa using h)
+    rw [milpLb_of_ne h, milpUb_of_ne h]
+    exact ⟨⟨geLb_lbRound hi a, leUb_ubRound hi b⟩, fun _ => hi⟩
+
+/-- column by column, a point accepted by `def_sol`'s MILP data is binary / integral where `vtype`
+says so and within the bounds: exactly on a `'C'` column, up to `ε` on the others (no hypothesis on
+the alphabet: every non-`'C'` column is integral) -/
+lemma col_milp_tol (c : Char) (v : K) (l u : Option K)
+    (h : (LinProg.geLb v (milpLb c l) ∧ LinProg.leUb v (milpUb c u)) ∧ ((c != 'C') = true → IsInt v)) :
+    ((c = 'B' → IsBin v) ∧ (c = 'I' → IsInt v)) ∧
+    (c = 'C' → LinProg.geLb v l ∧ LinProg.leUb v u) ∧ (c ≠ 'C' → geLbTol v l ∧ leUbTol v u) := by
+  obtain ⟨⟨a, b⟩, i⟩ := h
+  by_cases hC : c = 'C'
+  · subst hC
+    rw [milpLb_cont] at a
+    rw [milpUb_cont] at b
+    exact ⟨⟨fun h => absurd h (by decide), fun h => absurd h (by decide)⟩, fun _ => ⟨a, b⟩,
+      fun h => absurd rfl h⟩
+  · have hi : IsInt v := i (by simpa using hC)
+    rw [milpLb_of_ne hC] at a
+    rw [milpUb_of_ne hC] at b
+    have a' := geLbTol_of_lbRound a
+    have b' := leUbTol_of_ubRound b
+    by_cases hB : c = 'B'
+    · rw [if_pos hB] at a' b'
+      obtain ⟨a1, a2⟩ := geLbTol_lbBin a'
+      obtain ⟨b1, b2⟩ := leUbTol_ubBin b'
+      exact ⟨⟨fun _ => isBin_of_int_tol hi a2 b2, fun _ => hi⟩, fun h => absurd h hC, fun _ => ⟨a1, b1⟩⟩
+    · rw [if_neg hB] at a' b'
+      exact ⟨⟨fun h => absurd h hB, fun _ => hi⟩, fun h => absurd h hC, fun _ => ⟨a', b'⟩⟩
+
+/-- column by column: when the bounds of a non-continuous column are not within `ε` outside of an
+integer, `def_sol`'s MILP data say exactly "within the bounds, binary / integral" -/
+lemma col_milp_iff (c : Char) (hc : c = 'C' ∨ c = 'B' ∨ c = 'I') (v : K) (l u : Option K)
+    (hf : c ≠ 'C' → LbFar l ∧ UbFar u) :
+    ((LinProg.geLb v (milpLb c l) ∧ LinProg.leUb v (milpUb c u)) ∧ ((c != 'C') = true → IsInt v)) ↔
+    ((LinProg.geLb v l ∧ LinProg.leUb v u) ∧ ((c = 'B' → IsBin v) ∧ (c = 'I' → IsInt v))) := by
+  constructor
+  · intro h
+    obtain ⟨hv, h1, h2⟩ := col_milp_tol c v l u h
+    refine ⟨?_, hv⟩
+    by_cases hC : c = 'C'
+    · exact h1 hC
+    · have hi : IsInt v := h.2 (by simpa using hC)
+      exact ⟨geLb_of_tol_far hi (hf hC).1 (h2 hC).1, leUb_of_tol_far hi (hf hC).2 (h2 hC).2⟩
+  · rintro ⟨hb, hv⟩
+    exact col_milp_sound c hc v l u hb hv
+
+end Round
+
 lemma zlb_iff (P : LinProg K) (x : ℕ → K) :
     (∀ j ∈ zlbIdx P, 0 ≤ x j - (P.lb j).getD 0) ↔ ∀ j < P.nc, LinProg.geLb (x j) (P.lb j) := by
   simp only [zlbIdx, List.mem_filter, List.mem_range]
